@@ -43,10 +43,10 @@ import (
 )
 
 const ruleText = "seq: each case is a random history of 8-28 operations (Init with a fresh configuration and optional injected bad JSON / config-function / " +
-	"filesystem-construction / restoration failures, Mount, Check, Unmount with injected filesystem failures, manager death with the store kept, Close) over 2-5 mountpoints, " +
+	"filesystem-construction / restoration failures and, half of the time, the byte-identical Init again with the fault cleared or kept, Mount, Check, Unmount with injected filesystem failures, manager death with the store kept, Close) over 2-5 mountpoints, " +
 	"direct or through gRPC; conc: 2-4 workers with disjoint mountpoints race 8-16 requests each against 2-4 re-Inits (optionally after a manager restart with a populated store). " +
 	"non-trivial = the history contained (a) a Check/Unmount delivered to an instance of an older generation after a re-Init, or (b) a restoration mount during the first Init after a " +
-	"manager restart, or (c) a request issued after a failed Init, or (conc) a request that overlapped an Init in time; distinct by the operation script"
+	"manager restart, or (c) a request issued after a failed Init, or (d) a byte-identical Init repeated after a failed one, or (conc) a request that overlapped an Init in time; distinct by the operation script"
 
 func main() {
 	vf.Main("C17", "exploration", ruleText, 60, 1200, body)
